@@ -120,6 +120,7 @@ impl core::ops::ShrAssign<usize> for Integer {
     o.append(byval("Rational", "&'b Rational", "Rational", "*", "r == q_mul(self, *rhs)", lt=True))
     o.append(byref("Rational", "&'b Rational", "Rational", "+", "r == q_add(*self, *rhs)", lt=True))
     o.append(byref("Integer", "&'b Rational", "Rational", "+", "r == q_add(q_of_int(self.v()), *rhs)", lt=True))
+    o.append(byref("Rational", "&'b Rational", "Rational", "/", "q_sign(*rhs) != 0 ==> r == q_div(*self, *rhs)", lt=True))
     return "".join(o)
 
 if __name__ == "__main__":
